@@ -91,6 +91,11 @@ def intHi (k : Nat) (signed : Bool) : Int := if signed then (2 : Int) ^ (8 * k -
 
 def inRange (k : Nat) (signed : Bool) (v : Int) : Bool := decide (intLo k signed ≤ v) && decide (v < intHi k signed)
 
+/- `inRange 4 true ↑n` with a symbolic `n` must never be evaluated by the elaborator's `whnf`
+(`Int` comparison with the literal `2^31` unfolds `Nat.sub` two billion times): proofs unfold it
+explicitly.  The kernel (`decide +kernel`) and compiled code are not affected. -/
+attribute [irreducible] inRange
+
 /-- Pack an integer into `k` bytes with CPython's range check (two's complement when signed). -/
 def packInt (k : Nat) (signed : Bool) (v : Int) : Except Err Bytes :=
   if inRange k signed v then .ok (leBytes k (v % (2 : Int) ^ (8 * k)).toNat) else .error .range
